@@ -68,12 +68,20 @@ func msgByName(n string) *msgT {
 	return nil
 }
 
+// long-lived Messages, one per entry point and family
+var reusedMsgs = map[string]*nas.Message{}
+
 func dispatchCases(r *hk.Run) {
 	quick := !r.Thorough()
 	dec := func(stream string, entry int, in []byte, isNil bool, toModel bool) {
 		m := nas.NewMessage()
 		var err error
-		arg := append([]byte{}, in...)
+		big := make([]byte, len(in)+16) // the input is a window; the octets after it are a sentinel
+		copy(big, in)
+		for i := len(in); i < len(big); i++ {
+			big[i] = 0xa5
+		}
+		arg := big[:len(in)]
 		panicked, _ := hk.Catch(func() {
 			switch entry {
 			case 0:
@@ -118,9 +126,39 @@ func dispatchCases(r *hk.Run) {
 		r.Count(stream, key)
 		r.Dist["disp_"+o.class]++
 		site := "nas." + names[entry]
+		// ---- C05 on a Message that was decoded into before (same entry point, same family): the family
+		// struct is allocated anew by every decode, so exactly the body named by THIS message type is populated
+		if o.class == "ok" && !isNil && len(in) > 0 {
+			key := fmt.Sprintf("%d-%02x", entry, in[0])
+			if entry != 0 {
+				key = fmt.Sprintf("%d", entry)
+			}
+			rm := reusedMsgs[key]
+			if rm == nil {
+				rm = nas.NewMessage()
+				reusedMsgs[key] = rm
+			}
+			arg2 := append([]byte{}, in...)
+			var err2 error
+			p2, _ := hk.Catch(func() {
+				switch entry {
+				case 0:
+					err2 = rm.PlainNasDecode(&arg2)
+				case 1:
+					err2 = rm.GmmMessageDecode(&arg2)
+				case 2:
+					err2 = rm.GsmMessageDecode(&arg2)
+				}
+			})
+			if p2 || err2 != nil {
+				fail(r, "C05", site, "reused-message-rejected", hk.Hex(in), "decoding into a Message that was used before fails although a fresh Message accepts the input")
+			} else if o2 := observe(rm); o2.coq() != o.coq() {
+				fail(r, "C05", site, "reused-message-differs", hk.Hex(in), fmt.Sprintf("decoding into a Message used before populates %v, a fresh Message %v", o2.bodies, o.bodies))
+			}
+		}
 		// ---- C10: the entry points neither write to nor keep a reference into the caller's bytes
-		if !isNil && !bytes.Equal(arg, in) {
-			fail(r, "C10", site, "input-modified", hk.Hex(in), "the decoder wrote to the input bytes: "+hk.Hex(arg))
+		if !isNil && (!bytes.Equal(arg, in) || !bytes.Equal(big[len(in):], bytes.Repeat([]byte{0xa5}, 16))) {
+			fail(r, "C10", site, "input-modified", hk.Hex(in), "the decoder wrote to the input bytes or to the octets following them: "+hk.Hex(big))
 		}
 		if prop == "C10" && o.class == "ok" {
 			for i := range arg {
